@@ -38,6 +38,40 @@ try:  # CrossHair 0.0.110 turns functools.lru_cache into a no-op under tracing (
     from functools import _lru_cache_wrapper
 
     _xc._PATCH_REGISTRATIONS.pop(_lru_cache_wrapper.__call__, None)
+
+    # CrossHair 0.0.110 answers dict.get(key) for a non-scalar key by a linear search with ==, without hashing the key: an
+    # unhashable key (a tuple holding a list / dict / set) gets `default` where CPython raises TypeError -- and code that probes
+    # hashability with try: d.get(key) / except TypeError then takes a branch it never takes in CPython.  Restore the TypeError.
+    from crosshair.simplestructs import SimpleDict as _SimpleDict
+    from crosshair.tracers import NoTracing as _NoTracing
+    from crosshair.tracers import ResumedTracing as _ResumedTracing
+
+    _xh_dict_get = _xc._PATCH_REGISTRATIONS.get(dict.get)
+
+    def _hashable(k, depth=0):
+        t = type(k)
+        if getattr(t, "__hash__", None) is None:
+            return False
+        if depth < 6 and isinstance(k, (tuple, frozenset)):
+            try:
+                return all(_hashable(e, depth + 1) for e in tuple.__iter__(k))
+            except TypeError:
+                return True  # a symbolic tuple: leave it to CrossHair
+        return True
+
+    def _dict_get_faithful(self, key, default=None):
+        # same structure as crosshair.libimpl.builtinslib._dict_get, plus the hashability test
+        with _NoTracing():
+            if isinstance(key, (int, float, str)) or not isinstance(self, dict):
+                return dict.get(self, key, default)
+            if not _hashable(key):
+                raise TypeError("unhashable type in dict key")
+            symbolic_self = _SimpleDict(list(self.items()))
+            with _ResumedTracing():
+                return symbolic_self.get(key, default)
+
+    if _xh_dict_get is not None:
+        _xc._PATCH_REGISTRATIONS[dict.get] = _dict_get_faithful
 except Exception:  # crosshair not importable: plain concrete run
     pass
 
@@ -273,6 +307,12 @@ class LStore(uberjob.ValueStore):
 
     def __repr__(self):
         return "LStore()"  # deliberately the same for every store: a repr is not an identity
+
+
+if os.environ.get("XH_FALSY") == "1":
+    # a user store class with a container-like protocol: len() = number of values it holds, so the store object is FALSY while it is
+    # empty.  uberjob may only ever ask `is None` of a registry entry, never its truth value
+    LStore.__len__ = lambda self: 1 if self.present else 0
 
 
 def mk_fn(name, world, side_effect=None):
